@@ -233,6 +233,51 @@ def replay_stream(beh):
             drifts.append("hex: a CS:IP start address (record type 03) is not turned into a program counter")
         elif pc != c14.dval(e["v"]):
             out.append(("C15:%s:pc" % fmt, "program counter is %r after loading, the start address is %#x" % (pc, c14.dval(e["v"]))))
+        # a raw input handed over as a stream that has already been read from (cursor at `pre`): same image at 0
+        if fmt == "raw":
+            from amoco.system.core import DataIO, shellcode
+            from amoco.system.raw import RawExec
+        for how, pre in [(h, k) for k in (beh.get("pre") or []) for h in ("read", "seek")] if fmt == "raw" else []:
+            if True:
+                d = DataIO(data)
+                if how == "read":
+                    d.read(pre)
+                else:
+                    d.seek(pre)
+                t2 = RawExec(shellcode(d), cpu)
+                for k, blk in enumerate(beh["finals"]):
+                    cells = read_range(t2, c14.dval(blk["a"]), len(blk["d"]))
+                    if cells != blk["d"]:
+                        i = next(i for i, (g, w) in enumerate(zip(cells, blk["d"])) if g != w)
+                        out.append(("C15:raw:block:stream-cursor", "raw task built from a stream after %s(%d): byte %d reads %r, the file places %r there"
+                                    % (how, pre, i, cells[i], blk["d"][i])))
+                        break
+                if pc_value(t2) != 0:
+                    out.append(("C15:raw:pc:stream-cursor", "raw task built from a stream after %s(%d): program counter %r" % (how, pre, pc_value(t2))))
+        # relocation history: after relocate(v) the image starts at v (TLC computed where every block must be) and pc = v
+        for step, r in enumerate(beh.get("relocs", [])):
+            v = c14.dval(r["v"])
+            try:
+                task.relocate(v)
+            except Exception as ex:
+                out.append(("C15:%s:relocate:raises:%s" % (fmt, type(ex).__name__), "relocate(%#x) raised %r" % (v, ex)))
+                break
+            bad = False
+            for k, blk in enumerate(r["finals"]):
+                a = c14.dval(blk["a"])
+                cells = read_range(task, a, len(blk["d"]))
+                if cells != blk["d"]:
+                    i = next(i for i, (g, w) in enumerate(zip(cells, blk["d"])) if g != w)
+                    key = "C15:%s:relocate:block" % fmt + (":mixed-02-04" if beh.get("mixed") else "")
+                    out.append((key, "relocation %d to %#x: data block %d expected at %#x: byte %d reads %r, the file places %r there"
+                                % (step + 1, v, k, a, i, cells[i], blk["d"][i])))
+                    bad = True
+                    break
+            pc = pc_value(task)
+            if pc != v:
+                out.append(("C15:%s:relocate:pc" % fmt, "relocation %d to %#x: program counter is %r" % (step + 1, v, pc)))
+            if bad:
+                break
     except Exception as ex:
         out.append(("C15:%s:observe:raises:%s" % (fmt, type(ex).__name__), "reading the loaded task raised %r" % (ex,)))
     return out, drifts
